@@ -88,8 +88,8 @@ class C02(Prop):
     def generate(self, rng, tier, shard, nshards):
         big = tier == 'thorough'
         g = Gen(rng, self.pool)
-        n_tx = (5000 if big else 320) // nshards + 1
-        n_blk = (1500 if big else 120) // nshards + 1
+        n_tx = (12000 if big else 320) // nshards + 1
+        n_blk = (4000 if big else 120) // nshards + 1
         if shard == 0:
             yield mk('c02.ids', DEFAULT_TX, 'i', tag='default')
         for _ in range(n_tx):
